@@ -164,6 +164,11 @@ TIES = {
     "scan": dict(dir=".", gen="generated/GoScan.v", chain=["gosem/GoScanFacts.v"], deps=["set"],
                  args=["-module", "GoScan", "-skipfiles", "verif_on.go,verif_dump.go", "-only",
                        "processEntriesScanOnDisk,SortedEntryKeys,Tx.buildTempBucketMetaIdx"]),
+    "txz": dict(dir=".", gen="generated/GoTxZ.v", chain=["gosem/GoTxZFacts.v"], deps=["list", "set", "zset"],
+                args=["-module", "GoTxZ", "-skipfiles", "verif_on.go,verif_dump.go",
+                      "-imports", "github.com/xujiajun/nutsdb/ds/list=%s/generated/GoList.json,github.com/xujiajun/nutsdb/ds/set=%s/generated/GoSet.json,"
+                                  "github.com/xujiajun/nutsdb/ds/zset=%s/generated/GoZSet.json" % (COQ, COQ, COQ),
+                      "-only", "Tx.checkTxIsClosed,Tx.put,Tx.ZRem,Tx.ZRemRangeByRank"]),
     "tx": dict(dir=".", gen="generated/GoTx.v", chain=["gosem/GoTxFacts.v"], deps=["list", "set"],
                args=["-module", "GoTx", "-skipfiles", "verif_on.go,verif_dump.go",
                      "-imports", "github.com/xujiajun/nutsdb/ds/list=%s/generated/GoList.json,github.com/xujiajun/nutsdb/ds/set=%s/generated/GoSet.json" % (COQ, COQ),
@@ -174,7 +179,7 @@ TIES = {
 }
 # which ties a property depends on, and its code-level property file
 TIES_FOR = {"C05": ["list"], "C20": ["list", "page"], "C06": ["set"], "C21": ["codec"], "C15": ["codec"], "C01": ["codec"], "C04": ["codec"],
-            "C12": ["tx"], "C13": ["tx"], "C07": ["zset"], "C03": ["page"], "C02": ["scan"]}
+            "C12": ["tx"], "C13": ["tx"], "C07": ["zset", "txz"], "C03": ["page"], "C02": ["scan"]}
 CODE_PROPS = {"C05": "properties_code/C05_code.v", "C20": "properties_code/C05_code.v", "C06": "properties_code/C06_code.v",
               "C21": "properties_code/C21_code.v", "C15": "properties_code/C15_code.v", "C01": "properties_code/C01_code.v",
               "C04": "properties_code/C04_code.v", "C12": "properties_code/C13_code.v", "C13": "properties_code/C13_code.v",
